@@ -101,6 +101,7 @@ def task(W, payload):
         # two mixing-carrying stratifications and an infection flow: the renaming below REVERSES the alphabetical order of the stratification names
         opts.mixing_pair_bias = 0.6; opts.force_infection = True
     if variant == "perm":
+        opts.inf_adjust_bias = 0.9; opts.force_infection = True     # several infectious compartments with their own infectiousness adjustments, listed in another order
         opts.inexact_split_bias = 0.9 if (payload["index"] // len(VARIANTS)) % 2 == 0 else 0.4
         if (payload["index"] // len(VARIANTS)) % 2 == 0: opts.force_strat = True; opts.split_bias = 0.95; opts.allow_param_split = False; opts.inexact_split_bias = 1.0    # splits that sum to one only within the API's tolerance: reordering the strata must still only permute the results
     if variant == "perm" and (payload["index"] // len(VARIANTS)) % 2 == 1:
